@@ -24,7 +24,7 @@ CHECKS = {
         text="Every byte string up to the bound over an alphabet containing every RESP structural byte is run through the real decoder and "
              "an independent three-valued recogniser: equal value, exact bytes consumed, position == bytes consumed, malformed => error. "
              "Plus exhaustive round trips of value trees, streams through several bufferings, all single-byte corruptions/truncations. "
-             "A bounded-exhaustive result: it speaks for all inputs inside the stated bounds, not beyond. Payload sizes: one binary bulk of 2^k-1, 2^k and 2^k+1 bytes for k=6..21 (thorough ..24), alone and as a command argument, through encoder, DecodeFromBytes and the streaming decoder.",
+             "A bounded-exhaustive result: it speaks for all inputs inside the stated bounds, not beyond. Payload sizes: one binary bulk of 2^k-1, 2^k and 2^k+1 bytes for k=6..21 (thorough ..24), alone and as a command argument, through encoder, DecodeFromBytes and the streaming decoder. Integer texts at the int64 limits (with -, + and leading zeros, up to 30 digits) are tried as integer value, bulk length and array length; a decoder panic counts as a violation.",
         note="trusts respref (engine/respref, ~250 lines, written from the protocol text); numbers longer than 3 digits are skipped in the byte enumeration to keep allocations small (counted)",
         rule="(a) every byte string up to bytes_max_len over the 12-symbol RESP alphabet (nodes of the word trie = states, "
              "one appended byte = transition), decoded by pkg/redis and by the independent recogniser respref; non-trivial = "
@@ -57,7 +57,7 @@ CHECKS = {
         technique="exhaustive product (command x arity x pass/fail mask x filter configuration) executed on the real rewrite function, compared with a reference built from Redis' key-position table",
         text="For every command of the tool's write-command table, every arity from the minimum to minimum+3 key groups, every subset of keys passing, "
              "and filter none/whitelist/blacklist, HandleFilterKeyWithCommand's output is compared with a reference rewrite derived from the Redis command "
-             "reference (first/last/step). Non-key arguments are named so that they would be filtered if mistaken for keys. Every argument position is also tried as the empty string (as a key it passes a blacklist and fails a whitelist).",
+             "reference (first/last/step). Non-key arguments are named so that they would be filtered if mistaken for keys. Every argument position is also tried as the empty string (as a key it passes a blacklist and fails a whitelist). Every command is also sent in UPPER, lOWER-first and aLtErNaTiNg spelling through the real ParseArgs.",
         note="trusts the transcription of Redis' key positions in harness/filter/c13_test.go; commands added to the tool's table that the reference does not know are reported as notes, not judged",
         rule="case = (command, argument shape, pass mask, filter config); all distinct; states = distinct cases, transitions = calls; non-trivial = all (each is compared with the reference rewrite)",
         parts=[dict(pkg="./redis-shake/filter", harness=["filter"], test="^TestVerif_C13$", race=True, race_test="^TestVerif_C13Race$", race_shards=1, shards=1, budget=dict(quick=60, thorough=60))],
@@ -90,7 +90,8 @@ CHECKS = {
         parts=[
             dict(pkg="./pkg/rdb/digest", harness=["digest"], test="^TestVerif_C11A$", shards=1, budget=dict(quick=60, thorough=120)),
             dict(pkg="./pkg/libs/cupcake/rdb/crc64", harness=["crc64"], test="^TestVerif_C11A$", shards=1, budget=dict(quick=60, thorough=120)),
-            dict(pkg="./pkg/rdb", harness=["rdb"], test="^TestVerif_C11B$", shards=32, shards_thorough=256, budget=dict(quick=60, thorough=900), mem_kb=0, mem_soft_kb=0),
+            dict(pkg="./pkg/rdb", harness=["rdb"], test="^TestVerif_C11B$", shards=32, shards_thorough=256, budget=dict(quick=60, thorough=900), mem_kb=0, mem_soft_kb=0,
+                 race=True, race_test="^TestVerif_C11Race$", race_shards=1),
             dict(pkg="./redis-shake/common", harness=["common"], test="^TestVerif_C11U$", shards=16, budget=dict(quick=90, thorough=600)),
         ],
     ),
@@ -255,7 +256,9 @@ CHECKS = {
         note="grant orders are explored with a bound on deviations from first-come-first-served (stated in the evidence); which worker dequeues the next entry is left to the Go runtime within one quiescent step (GOMAXPROCS=1, replay checked); a free-running -race pass covers unsynchronised accesses",
         rule="execution = (scenario, grant order); states = distinct grant orders per scenario; transitions = grants; non-trivial = scenarios with more than one worker",
         parts=[dict(pkg="./redis-shake/dbSync", harness=["dbsync"], test="^TestVerif_C07$", race=True, race_test="^TestVerif_C07Race$", race_shards=4, shards=16, gomaxprocs=1, budget=dict(quick=75, thorough=1200)),
-               dict(pkg="./redis-shake", harness=["run"], test="^TestVerif_C07R$", race=True, race_test="^TestVerif_C07RRace$", race_shards=4, shards=16, gomaxprocs=1, budget=dict(quick=75, thorough=1200))],
+               dict(pkg="./redis-shake", harness=["run"], test="^TestVerif_C07R$", race=True, race_test="^TestVerif_C07RRace$", race_shards=4, shards=16, gomaxprocs=1, budget=dict(quick=75, thorough=1200)),
+               # the whole restore command: 1-4 input files x file-level workers x per-file workers
+               dict(pkg="./redis-shake", harness=["run"], test="^TestVerif_C07M$", shards=8, gomaxprocs=4, budget=dict(quick=75, thorough=300))],
     ),
     "C16": dict(
         level="model_checking",
